@@ -54,7 +54,12 @@ def iter_chain(body, next_site):
 def run(ctx):
     r = ctx.run
     r.explanation = EXPLANATION
-    lib = ctx.lib
+    check_merge(r, ctx.lib)
+    r.trust("Vec::push appends at the end; vec::IntoIter / slice::Iter yield front to back")
+    r.assume("the element type's PartialEq is an equivalence (the property quantifies over duplicate-free lists of plain items)")
+
+
+def check_merge(r, lib, only_order=False):
     ms = find_merge(lib)
     r.ob("A9.anchor", "library", len(ms) == 1, "exactly one public fn (Vec<Necessity<T>>, Vec<Necessity<T>>) -> Vec<Necessity<T>>: %s" % [m.name for m in ms],
          key="A9.anchor")
@@ -136,14 +141,14 @@ def run(ctx):
     if not (ok_in1 and ok_in2):
         return
 
+    if only_order:
+        return
     # path enumeration of one outer iteration
     for idx, l, inner in ((1, l1, in1[0]), (2, l2, in2[0])):
         outcomes, problems = iteration_outcomes(b, l, inner, res)
         for p in problems:
             r.ob("M%d.iteration-paths" % (3 if idx == 1 else 4), "%s: pass %d" % (fn, idx), False, p, site=l["next"], key="M%d|paths|%s" % (3 if idx == 1 else 4, norm(p)[:50]))
         spec_check(r, fn, idx, l, outcomes, b)
-    r.trust("Vec::push appends at the end; vec::IntoIter / slice::Iter yield front to back")
-    r.assume("the element type's PartialEq is an equivalence (the property quantifies over duplicate-free lists of plain items)")
 
 
 def iteration_outcomes(b, l, inner, res):
